@@ -136,6 +136,7 @@ type OpTable struct {
 	// operator's token, qualified tighter than every level; 2 the same at level 1.
 	Unary      int
 	Spelling   int // Grammar.PrecSpelling
+	Pad        int // Grammar.PadToks
 	UnaryLevel int
 	UnaryAssoc int
 	NumOps     int
@@ -192,11 +193,23 @@ func OpTables() []*OpTable {
 			}
 		}
 	}
+	// the same tables (every 9th) with 61, 70 and 300 unused tokens declared
+	// before the operators: the operators' terminal numbers straddle 64, lie
+	// beyond it, and beyond 256
+	n := len(out)
+	for _, pad := range []int{61, 70, 300} {
+		for i := 0; i < n; i += 9 {
+			c := *out[i]
+			c.Pad = pad
+			c.build()
+			out = append(out, &c)
+		}
+	}
 	return out
 }
 
 func (t *OpTable) build() {
-	g := &Grammar{PrecSpelling: t.Spelling}
+	g := &Grammar{PrecSpelling: t.Spelling, PadToks: t.Pad}
 	for i := 0; i < t.NumOps; i++ {
 		g.Toks = append(g.Toks, fmt.Sprintf("O%d", i+1))
 		g.Lits = append(g.Lits, string(rune('+'+0))) // placeholder, fixed below
